@@ -192,8 +192,8 @@ def main(chk):
                 if vdefs != base_defs:
                     only_b = list((base_defs - vdefs).elements())[:2]
                     only_v = list((vdefs - base_defs).elements())[:2]
-                    res.append(('C08:defs-differ:%s' % kind, '%s variant %s (options ' + ' '.join(opts) + '): C definitions differ. base only: %s | variant only: %s' % (
-                        tag, kind, [x[:200] for x in only_b], [x[:200] for x in only_v]), wf, vb))
+                    res.append(('C08:defs-differ:%s' % kind, '%s variant %s (options %s): C definitions differ. base only: %s | variant only: %s' % (
+                        tag, kind, ' '.join(opts), [x[:200] for x in only_b], [x[:200] for x in only_v]), wf, vb))
                 else:
                     stats['defs-equal'] += 1
             shutil.rmtree(vd, ignore_errors=True)
